@@ -635,7 +635,9 @@ fn replay(run: &'static Run, rep: &Value) -> ! {
         std::process::exit(2);
     };
     run.eval();
-    match case["mode"].as_str().unwrap_or("inproc") {
+    // a case found in the dev profile (child probe or dev shard) is replayed in a child of the dev binary
+    let mode = if profile == "dev" { "child" } else { case["mode"].as_str().unwrap_or("inproc") };
+    match mode {
         "child" => {
             let exe = match profile {
                 "dev" => match san::build_dev() {
